@@ -10,8 +10,6 @@ From Soy Require Import Model.Bytes Model.Utf8 Model.Outcome Model.Values Genera
 Import ListNotations.
 Open Scope N_scope.
 
-Definition st_as_int_v (v : value) : option Z := match v with VInt i => Some i | _ => None end.
-Definition st_as_bool_v (v : value) : option bool := match v with VBool x => Some x | _ => None end.
 
 (* utf8.RuneStart on a byte *)
 Lemma st_rune_start_bits_all :
@@ -102,11 +100,11 @@ Qed.
 (* |truncate:n  and  |truncate:n,e  on a value whose String() is s *)
 Theorem truncate_matches_source (v : value) (st_string : value -> option bstr) (s : bstr) (n : Z) (e : bool) :
   st_string v = Some s -> Forall (fun c => c < 256) s -> st_small (go_len s) -> (-4611686018427387904 <= n)%Z ->
-  let run args := src_soyhtml_directiveTruncate value st_vkind VStr st_as_bool_v st_as_int_v st_string v args in
+  let run args := st_V src_soyhtml_directiveTruncate_V st_string v args in
   let expect e := if (Z.of_nat (length s) <=? n)%Z then Some v else st_trunc_result s n e in
   run [VInt n] = expect true /\ run [VInt n; VBool e] = expect e.
 Proof.
-  intros Hv Hb Hs Hlo run expect. unfold run, expect, st_trunc_result, truncate, src_soyhtml_directiveTruncate. clear run expect.
+  intros Hv Hb Hs Hlo run expect. unfold run, expect, st_trunc_result, truncate, src_soyhtml_directiveTruncate_V, src_soyhtml_directiveTruncate. clear run expect.
   repeat match goal with
          | |- context [go_index (?a :: ?l) ?i] =>
              let r := eval vm_compute in (go_index (a :: l) i) in change (go_index (a :: l) i) with r
